@@ -20,6 +20,7 @@ from __future__ import annotations
 
 import ast
 import inspect
+import os
 import sys
 import textwrap
 import threading
@@ -40,6 +41,45 @@ def _held_lock():
     lock = threading.Lock()
     lock.acquire()
     return lock
+
+
+class _Worker(threading.Thread):
+    """A persistent thread that runs one scheduled thunk per job.  Creating a thread per case
+    costs milliseconds on a loaded machine; a parked worker costs one futex wake-up."""
+
+    def __init__(self, index: int):
+        super().__init__(daemon=True, name=f"vf-sched-{index}")
+        self.job = _held_lock()
+        self.task: Optional[Callable[[], None]] = None
+        self.start()
+
+    def run(self) -> None:
+        while True:
+            self.job.acquire()
+            task, self.task = self.task, None
+            if task is None:
+                continue
+            try:
+                task()
+            except BaseException:  # the task reports through the Scheduler; never kill the worker
+                pass
+
+
+_WORKERS: List[_Worker] = []
+
+
+def _workers(n: int) -> List[_Worker]:
+    while len(_WORKERS) < n:
+        _WORKERS.append(_Worker(len(_WORKERS)))
+    return _WORKERS[:n]
+
+
+def _forget_workers() -> None:
+    del _WORKERS[:]
+
+
+if hasattr(os, "register_at_fork"):
+    os.register_at_fork(after_in_child=_forget_workers)  # threads do not survive fork()
 
 
 class Window:
@@ -125,6 +165,13 @@ class Scheduler:
     mode "window": only ``line`` events on window lines of the ``focus`` classes' ``__new__``
                    are decision points; everything else runs without a switch.
 
+    At every decision point the scheduling procedure ``_decide`` runs (consuming one integer of
+    the schedule) and names the thread that executes next.  The procedure is executed by the
+    thread that has just parked -- it is the only thread running, so this is the same
+    sequential scheduler as a separate scheduler thread would be -- and an OS-level hand-over
+    (release the chosen thread's semaphore, block on one's own) happens only when the choice
+    names a *different* thread; this halves the context switches, which dominate the cost.
+
     After ``run()``:
       results      per thread: the thunk's value, or the exception instance it raised
       raised       per thread: bool
@@ -132,8 +179,11 @@ class Scheduler:
       order        list of thread indices in the order they were released
       trace        list of (thread, qualname, lineno) for line events in functions whose name
                    is in ``trace_names`` (default: __new__/_multiply/_divide)
-      window_switches  {class name: number of times another thread was released while a
-                   thread was parked between the membership test and the insertion}
+      window_switches  {class name: number of decision points at which a thread was chosen
+                   while *another* thread was parked between the membership test and the
+                   insertion of that class's __new__}
+      entered      {class name: number of times a thread passed the membership test on the
+                   inserting path}
       steps        number of decision points
     """
 
@@ -162,34 +212,86 @@ class Scheduler:
         self.timeout = timeout
         self.max_steps = max_steps
 
-        # binary semaphores: raw locks, created held; release() = signal, acquire() = wait.
-        # The protocol strictly alternates signal/wait on each of them.
+        # binary semaphores: raw locks, created held; release() = signal, acquire() = wait
         self.go = [_held_lock() for _ in range(self.n)]
-        self.back = _held_lock()
+        self.finished = _held_lock()
         self.done = [False] * self.n
         self.results: List[Any] = [None] * self.n
         self.raised = [False] * self.n
         self.abort = False
+        self.error: Optional[BaseException] = None
 
         self.trace: List[Tuple[int, str, int]] = []
         self.decisions: List[Tuple[int, int]] = []
         self.order: List[int] = []
         self.steps = 0
         self.lines_seen = 0
+        self._k = 0
+        self._last = -1
         # per thread: stack of [frame id, Window, currently open?]
         self._open: List[List[list]] = [[] for _ in range(self.n)]
         self.window_switches: Dict[str, int] = {}
-        self.entered: Dict[str, int] = {}  # class -> number of times a thread passed the test on the miss path
+        self.entered: Dict[str, int] = {}
+
+    # ------------------------------------------------------------------ the scheduling procedure
+
+    def _decide(self) -> int:
+        """Names the thread that runs next (-1: none left).  Only ever executed by the one
+        thread that is currently running, so it needs no locking."""
+        alive = [i for i in range(self.n) if not self.done[i]]
+        if not alive:
+            return -1
+        if self._k < len(self.schedule):
+            idx = self.schedule[self._k] % len(alive)
+        else:  # round robin: the next runnable thread after the one that ran last
+            later = [a for a in alive if a > self._last]
+            idx = alive.index(later[0]) if later else 0
+        self._k += 1
+        i = alive[idx]
+        self.decisions.append((len(alive), idx))
+        self.order.append(i)
+        for j in alive:
+            if j != i:
+                for _fid, w, is_open in self._open[j]:
+                    if is_open:
+                        self.window_switches[w.cls_name] = self.window_switches.get(w.cls_name, 0) + 1
+        self._last = i
+        self.steps += 1
+        if self.steps > self.max_steps:
+            raise HarnessDeadlock(f"more than {self.max_steps} scheduling steps")
+        return i
+
+    def _fail(self, exc: BaseException) -> None:
+        if self.error is None:
+            self.error = exc
+        self.abort = True
+        try:
+            self.finished.release()
+        except RuntimeError:
+            pass
 
     # ------------------------------------------------------------------ inside the threads
 
-    def _park(self, i: int) -> None:
-        self.back.release()
+    def _wait_turn(self, i: int) -> None:
         if not self.go[i].acquire(timeout=self.timeout):
-            self.abort = True
+            self._fail(HarnessDeadlock(
+                f"thread {i} was not given a turn within {self.timeout}s after {self.steps} steps "
+                f"(the running thread is blocked, e.g. on a lock held by a parked thread?)"
+            ))
             raise _Abort()
         if self.abort:
             raise _Abort()
+
+    def _decision_point(self, i: int) -> None:
+        try:
+            j = self._decide()
+        except HarnessDeadlock as e:
+            self._fail(e)
+            raise _Abort()
+        if j == i:
+            return
+        self.go[j].release()
+        self._wait_turn(i)
 
     def _make_tracer(self, i: int):
         windows = self.windows
@@ -219,7 +321,7 @@ class Scheduler:
                     if not line_mode and w.cls_name in focus and w.is_window_line(lineno):
                         decision = True
                 if decision:
-                    self._park(i)
+                    self._decision_point(i)
             elif event == "return":
                 if stack and stack[-1][0] == id(frame):
                     stack.pop()
@@ -234,11 +336,11 @@ class Scheduler:
 
     def _run_thread(self, i: int) -> None:
         try:
-            if not self.go[i].acquire(timeout=self.timeout):
-                self.abort = True
-                return
-            if self.abort:
-                return
+            self._wait_turn(i)
+        except _Abort:
+            self.done[i] = True
+            return
+        try:
             sys.settrace(self._make_tracer(i))
             try:
                 self.results[i] = self.thunks[i]()
@@ -252,64 +354,40 @@ class Scheduler:
         finally:
             self.done[i] = True
             del self._open[i][:]
-            self.back.release()
+            if not self.abort:
+                try:
+                    j = self._decide()
+                    if j < 0:
+                        self.finished.release()
+                    else:
+                        self.go[j].release()
+                except HarnessDeadlock as e:
+                    self._fail(e)
 
-    # ------------------------------------------------------------------ the scheduler proper
-
-    def _open_classes(self, except_thread: int) -> List[str]:
-        out = []
-        for j in range(self.n):
-            if j == except_thread or self.done[j]:
-                continue
-            for _fid, w, is_open in self._open[j]:
-                if is_open:
-                    out.append(w.cls_name)
-        return out
+    # ------------------------------------------------------------------ driver
 
     def run(self) -> List[Any]:
-        threads = [threading.Thread(target=self._run_thread, args=(i,), daemon=True, name=f"vf-sched-{i}") for i in range(self.n)]
-        for t in threads:
-            t.start()
-        k = 0
-        last = -1
+        workers = _workers(self.n)
+        for i, wk in enumerate(workers):
+            wk.task = (lambda i=i: self._run_thread(i))
+            wk.job.release()
         try:
-            while not all(self.done):
-                alive = [i for i in range(self.n) if not self.done[i]]
-                if k < len(self.schedule):
-                    idx = self.schedule[k] % len(alive)
-                else:  # round robin: the next runnable thread after the one that ran last
-                    later = [a for a in alive if a > last]
-                    idx = alive.index(later[0]) if later else 0
-                k += 1
-                i = alive[idx]
-                self.decisions.append((len(alive), idx))
-                self.order.append(i)
-                for cname in self._open_classes(i):
-                    self.window_switches[cname] = self.window_switches.get(cname, 0) + 1
-                last = i
-                self.steps += 1
-                if self.steps > self.max_steps:
-                    raise HarnessDeadlock(f"more than {self.max_steps} scheduling steps")
-                self.go[i].release()
-                if not self.back.acquire(timeout=self.timeout):
-                    raise HarnessDeadlock(
-                        f"thread {i} did not hand control back within {self.timeout}s "
-                        f"(blocked on a lock held by a parked thread?) after {self.steps} steps"
-                    )
-                if self.abort:
-                    raise HarnessDeadlock("a scheduled thread timed out waiting for its turn")
+            j = self._decide()
+            if j >= 0:
+                self.go[j].release()
+                if not self.finished.acquire(timeout=self.timeout * 4):
+                    raise HarnessDeadlock(f"the run did not finish within {self.timeout * 4}s ({self.steps} steps)")
+            if self.error is not None:
+                raise self.error
         except BaseException:
             self.abort = True
+            _forget_workers()  # they may be stuck; the next run (if any) gets new ones
             for s in self.go:
                 try:
                     s.release()
                 except RuntimeError:
                     pass
             raise
-        for t in threads:
-            t.join(self.timeout)
-            if t.is_alive():
-                raise HarnessDeadlock(f"{t.name} did not terminate")
         return self.results
 
 
